@@ -328,14 +328,24 @@ End Machine.
 (* ---------- instantiation with the orderings read from the source ---------- *)
 Definition ord_at (fn : string) (site arg : nat) : ord :=
   nth arg (nth site (fn_ords fn) []) Relaxed.
+(* the k-th site of [fn] with this kind and these operands (robust against sites of other kinds being added) *)
+Definition sites_of (fn : string) : list site :=
+  match find_fn fn fns with Some f => f_sites f | None => [] end.
+Definition list_string_eqb (a b : list string) : bool :=
+  Nat.eqb (length a) (length b) && forallb (fun p => String.eqb (fst p) (snd p)) (combine a b).
+Definition ord_of (fn kind : string) (args : list string) (k arg : nat) : ord :=
+  match nth_error (filter (fun s => String.eqb (s_kind s) kind && list_string_eqb (s_args s) args) (sites_of fn)) k with
+  | Some s => nth arg (s_ords s) Relaxed
+  | None => Relaxed
+  end.
 Definition gen_mords : mords := mkMords
   (ord_at "mutex::Mutex::try_lock" 0 0)
   (ord_at "mutex::Mutex::try_lock_arc" 0 0)
-  (ord_at "mutex::AcquireSlow::poll_with_strategy" 1 0)
-  (ord_at "mutex::AcquireSlow::poll_with_strategy" 3 0)
-  (ord_at "mutex::AcquireSlow::poll_with_strategy" 7 0)
-  (ord_at "mutex::AcquireSlow::poll_with_strategy" 10 0)
-  (ord_at "mutex::AcquireSlow::poll_with_strategy" 5 0)
+  (ord_of "mutex::AcquireSlow::poll_with_strategy" "compare_exchange" ["0"; "1"] 0 0)
+  (ord_of "mutex::AcquireSlow::poll_with_strategy" "compare_exchange" ["0"; "1"] 1 0)
+  (ord_of "mutex::AcquireSlow::poll_with_strategy" "compare_exchange" ["2"; "3"] 0 0)
+  (ord_of "mutex::AcquireSlow::poll_with_strategy" "fetch_or" ["1"] 0 0)
+  (ord_of "mutex::AcquireSlow::poll_with_strategy" "fetch_add" ["2"] 0 0)
   (ord_at "mutex::AcquireSlow::take_mutex" 0 0)
   (ord_at "mutex::Mutex::unlock_unchecked" 0 0).
 
